@@ -223,12 +223,114 @@ theorem retainSticky_spec (as : List (Nat × List Nat)) (h : Whole as) (fuel : N
       rw [ih hrest fuel hf']
       split <;> simp_all [wire]
 
+/-! ## NewChannelReq / DlChannelReq: acknowledged ⇒ exactly the commanded effect, otherwise nothing -/
+
+/-- the channel after an acknowledged DlChannelReq -/
+def withDl (c : Channel) (freq : Nat) : Channel := { c with dlFreq := if freq == c.freq then none else some freq }
+
+/-- the region state with slot `index` of the dynamic plan `p` replaced and mask `m` -/
+def setSlot (rs : RegionState) (p : DynPlan) (index : Nat) (slot : Option Channel) (m : Mask) : RegionState :=
+  { rs with plan := .dyn { channels := p.channels.set index slot, mask := m } }
+
+/-- **DlChannelReq.** The frequency bit of the answer is the band check; unless both bits are set
+the channel plan is unchanged; when both are set, channel `index` existed, was enabled, and is the
+only thing that changed: its RX1 frequency is now the requested one (a request naming the uplink
+frequency itself drops the separate downlink frequency, which is the same frequency), mask and all
+other channels are untouched. -/
+theorem dlChannel_atomic (rs rs' : RegionState) (index freq : Nat) (a b : Bool)
+    (h : channelDlUpdate rs index freq = .ok ((a, b), rs')) :
+    a = frequencyValid rs.id freq
+    ∧ ((a && b) = false → rs' = rs)
+    ∧ ((a && b) = true → ∃ p c, rs.plan = .dyn p ∧ index < 16 ∧ p.channels[index]? = some (some c) ∧ c.freq ≠ 0 ∧
+        p.mask.isEnabled index = .ok true ∧ rs' = setSlot rs p index (some (withDl c freq)) p.mask) := by
+  unfold channelDlUpdate at h
+  cases hp : rs.plan with
+  | fix q => simp [hp, Model.panic] at h
+  | dyn p =>
+    simp only [hp] at h
+    split at h
+    · cases Except.pure_eq_ok h; simp
+    · rename_i hidx
+      obtain ⟨en, hen, h⟩ := Except.bind_eq_ok h
+      split at h
+      · simp [Model.panic] at h
+      · rename_i slot hslot
+        split at h
+        · rename_i c
+          split at h
+          · rename_i hf
+            split at h
+            · rename_i hfv
+              cases Except.pure_eq_ok h
+              refine ⟨rfl, by simp [hfv], fun _ => ⟨p, c, rfl, by omega, hslot, by simpa using hf, hen, rfl⟩⟩
+            · rename_i hfv
+              cases Except.pure_eq_ok h
+              have : frequencyValid rs.id freq = false := by simpa using hfv
+              simp [this]
+          · cases Except.pure_eq_ok h; simp
+        · cases Except.pure_eq_ok h; simp
+
+/-- after an acknowledged DlChannelReq the channel's RX1 frequency is the requested frequency -/
+theorem dlChannel_rx1 (c : Channel) (freq : Nat) : (withDl c freq).dlFreq.getD (withDl c freq).freq = freq := by
+  unfold withDl
+  by_cases h : freq = c.freq <;> simp [h]
+
+/-- **NewChannelReq.** Default (join) channels and indices ≥ 16 are refused with both bits clear;
+unless both bits are set nothing changes; when both are set the slot `index` holds exactly the
+commanded channel (or is removed for frequency 0), its mask bit follows, and every other slot is
+untouched. -/
+theorem newChannel_atomic (rs rs' : RegionState) (index freq : Nat) (dr : Option Nat) (a b : Bool)
+    (h : handleNewChannel rs index freq dr = .ok ((a, b), rs')) :
+    ((index < numJoinChannels rs.id ∨ index ≥ 16) → a = false ∧ b = false)
+    ∧ ((a && b) = false → rs' = rs)
+    ∧ ((a && b) = true → ∃ p m, rs.plan = .dyn p ∧ numJoinChannels rs.id ≤ index ∧ index < 16 ∧
+        ((freq = 0 ∧ p.mask.setChannel index false = .ok m ∧ rs' = setSlot rs p index none m)
+         ∨ (freq ≠ 0 ∧ frequencyValid rs.id freq = true ∧ ∃ r, dr = some r ∧ p.mask.setChannel index true = .ok m ∧
+            rs' = setSlot rs p index (some { freq := freq, drRange := r, dlFreq := none }) m))) := by
+  unfold handleNewChannel at h
+  cases hp : rs.plan with
+  | fix q => simp [hp, Model.panic] at h
+  | dyn p =>
+    simp only [hp] at h
+    split at h
+    · cases Except.pure_eq_ok h; simp
+    · rename_i h1
+      split at h
+      · cases Except.pure_eq_ok h; simp
+      · rename_i h2
+        split at h
+        · rename_i hf0
+          obtain ⟨m, hm, h⟩ := Except.bind_eq_ok h
+          cases Except.pure_eq_ok h
+          refine ⟨by omega, by simp, fun _ => ⟨p, m, rfl, by omega, by omega, Or.inl ⟨by simpa using hf0, hm, rfl⟩⟩⟩
+        · rename_i hf0
+          have hfne : freq ≠ 0 := by simpa using hf0
+          cases dr with
+          | none =>
+            cases Except.pure_eq_ok h
+            refine ⟨by omega, by simp, by simp⟩
+          | some r =>
+            simp only at h
+            obtain ⟨sup, hsup, h⟩ := Except.bind_eq_ok h
+            split at h
+            · rename_i hboth
+              obtain ⟨m, hm, h⟩ := Except.bind_eq_ok h
+              cases Except.pure_eq_ok h
+              have hb : frequencyValid rs.id freq = true ∧ b = true := by simpa using hboth
+              refine ⟨by omega, by simp [hb.1, hb.2], fun _ => ⟨p, m, rfl, by omega, by omega, Or.inr ⟨hfne, hb.1, r, rfl, hm, rfl⟩⟩⟩
+            · rename_i hboth
+              cases Except.pure_eq_ok h
+              refine ⟨by omega, by simp, fun hh => absurd hh hboth⟩
+
 /-! non-vacuity -/
 def cfg0 : Config :=
   { dataRate := 0, rx1Delay := 1000, txPower := none, rx1DrOffset := 0, rx2DataRate := none, rx2Frequency := none, adrEnabled := true }
 example : (rxParamSetup cfg0 .EU868 0x23 869525000).1 = 7 := by decide
 example : (rxParamSetup cfg0 .EU868 0x7F 1000).1 = 2 := by decide
 example : (linkAdrDecide cfg0 (RegionState.init .EU868) [7, 0, 255, 255, 255, 255, 255, 255, 255] false 5 1).toOption.map (·.1) = some 7 := by decide
+example : ((channelDlUpdate (RegionState.init .EU868) 0 867100000).toOption.map (·.1)) = some (true, true) := by decide
+example : ((handleNewChannel (RegionState.init .EU868) 4 867300000 (some 0x50)).toOption.map (·.1)) = some (true, true) := by decide
+example : ((handleNewChannel (RegionState.init .EU868) 1 867300000 (some 0x50)).toOption.map (·.1)) = some (false, false) := by decide
 example : retainSticky 16 [0x03, 7, 0x05, 7, 0x06, 255, 0, 0x08, 0x0A, 3] = [0x05, 7, 0x08, 0x0A, 3] := by decide
 
 end C08
@@ -244,3 +346,6 @@ end C08
 #print axioms C08.linkAdr_rejects
 #print axioms C08.linkAdrDr_spec
 #print axioms C08.retainSticky_spec
+#print axioms C08.dlChannel_atomic
+#print axioms C08.dlChannel_rx1
+#print axioms C08.newChannel_atomic
